@@ -303,8 +303,10 @@ theorem C07_doc_separated (ple : Option (DNode → DNode → Bool)) (wp : Option
       ∧ root'.children.filter isEmptyLineKind
           = List.replicate ((paragraphs root').length - 1) (.node .EMPTY_LINE [Node.tok .NEWLINE ['\n']])
       ∧ (∀ w ∈ ws, (docGroup w).filter isEmptyLineKind = [])
-      -- every group ends with a line terminator (when its paragraph has any token at all)
-      ∧ (∀ w ∈ ws, leavesList [w.2] ≠ [] → ∃ t, (leavesList (w.2 :: termOf w.2)).getLast? = some t ∧ t.1 = .NEWLINE) := by
+      -- every group ends with a line terminator — when its paragraph has a `last_token()` (rowan:
+      -- the chain of LAST children ends in a token; not so when it ends in an empty ERROR node, as
+      -- in the parse of a key without colon at the end of the input: then nothing is supplied)
+      ∧ (∀ w ∈ ws, lastTok w.2.children ≠ none → ∃ t, (leavesList (w.2 :: termOf w.2)).getLast? = some t ∧ t.1 = .NEWLINE) := by
   obtain ⟨ws, hpw, hpre, htr, rfl⟩ := deb822Wrap_spec ple wp root root' h
   have hpre' : ∀ w ∈ sortBy ple ws, ∀ c ∈ w.1, isTrivTok c = true :=
     fun w hw => hpre w ((mem_sortBy ple ws w).1 hw)
@@ -323,13 +325,19 @@ theorem C07_doc_separated (ple : Option (DNode → DNode → Bool)) (wp : Option
   · intro w hw
     exact filter_el_docGroup w (hpre' w hw) (hpara' w hw)
   · intro w _ hne
-    cases hl : (leavesList [w.2]).getLast? with
-    | none => exact absurd (List.getLast?_eq_none_iff.1 hl) hne
+    cases hl : lastTok w.2.children with
+    | none => exact absurd hl hne
     | some t =>
+      have hlv : (leavesList [w.2]).getLast? = some t := by
+        cases hw2 : w.2 with
+        | tok k x => rw [hw2] at hl; simp [Node.children, lastTok_nil] at hl
+        | node k cs =>
+          rw [hw2] at hl
+          simpa [Node.children] using lastTok_leaves cs t hl
       by_cases ht : t.1 = .NEWLINE
       · refine ⟨t, ?_, ht⟩
         have : termOf w.2 = [] := by simp only [termOf, hl, ht]; rfl
-        rw [this]; exact hl
+        rw [this]; exact hlv
       · refine ⟨(.NEWLINE, ['\n']), ?_, rfl⟩
         have : termOf w.2 = [Node.tok .NEWLINE ['\n']] := by
           simp only [termOf, hl]
@@ -338,6 +346,13 @@ theorem C07_doc_separated (ple : Option (DNode → DNode → Bool)) (wp : Option
         rw [this]
         simp
 
+
+/-- the restriction of the last clause is genuine: the parse of `A` is
+    `PARAGRAPH(ENTRY(KEY "A", ERROR()))`, its `last_token()` is `None` (the chain of last children
+    ends in the empty ERROR node), and `wrap_and_sort` supplies no terminator — the result prints
+    `A`, as in /repo (`deb.wrap d x41 1/0/n/n/n/x`) -/
+example : (deb822Wrap none none (parse "A".toList).tree).map Node.text = some "A".toList := by
+  decide +kernel
 
 /-- comment lines inside a value (COMMENT tokens among the children of the field) are kept, in
     order, by the entry-level reformatting -/
@@ -635,7 +650,7 @@ theorem C07_control_separated (cfg : WrapCfg) (root root' : DNode) (h : controlW
       ∧ root'.children.filter isEmptyLineKind
           = List.replicate ((paragraphs root').length - 1) (.node .EMPTY_LINE [Node.tok .NEWLINE ['\n']])
       ∧ (∀ w ∈ ws, (docGroup w).filter isEmptyLineKind = [])
-      ∧ (∀ w ∈ ws, leavesList [w.2] ≠ [] → ∃ t, (leavesList (w.2 :: termOf w.2)).getLast? = some t ∧ t.1 = .NEWLINE) :=
+      ∧ (∀ w ∈ ws, lastTok w.2.children ≠ none → ∃ t, (leavesList (w.2 :: termOf w.2)).getLast? = some t ∧ t.1 = .NEWLINE) :=
   C07_doc_separated (some ctlParaLe) (some (paragraphWrap cfg none (some formatField)))
     (fun p p' _ hp => paragraphWrap_isPara cfg none (some formatField) p p' hp) root root'
     (controlWrap_some cfg root root' h).2
